@@ -33,6 +33,7 @@ Next ==
   \/ \E h \in {1, 2} : ChildExit(h, 3)
   \/ \E h \in {1, 2} : ChildOut(h, 1)
   \/ \E h \in {1, 2} : ChildClose(h, 1)
+  \/ Interrupt
 
 Spec == Init /\ [][Next]_vars
 Export == ExportRet
